@@ -300,6 +300,16 @@ func (fr *Frame) nativeCall(b *ssa.BasicBlock, st *State, name string, callee *s
 			fr.havocReach(st, tv)
 			if ptr, isPtr := pt.Underlying().(*types.Pointer); isPtr {
 				if su, isStruct := ptr.Elem().Underlying().(*types.Struct); isStruct {
+					// ghost: the character data / text the decoder delivered, when the destination is a struct whose
+					// only field is a string (the `xml:",chardata"` idiom); readable in contracts as xmltext()
+					if su.NumFields() == 1 {
+						if bt, isStr := su.Field(0).Type().Underlying().(*types.Basic); isStr && bt.Info()&types.IsString != 0 {
+							f := fr.specField(tv, su.Field(0).Name(), &SpecEnv{fr: fr, now: st, old: st})
+							fc.regVar("$xmltext", "Int")
+							fc.logWrite("$xmltext", "")
+							st.vars["$xmltext"] = fr.scalar(f)
+						}
+					}
 					for i := 0; i < su.NumFields(); i++ {
 						sl, isSl := su.Field(i).Type().Underlying().(*types.Slice)
 						if !isSl {
